@@ -140,9 +140,20 @@ CHECKS.update({
           'copy in std_portable.h. insert(pos,first,last) is a bounded stand-in (<= 1 element quick, 2 thorough) on top of the proved insert(pos,value); rbegin/rend are std::reverse_iterator '
           '(trusted). Trusted: libstdc++ algorithm / allocator stubs (spec/c02_std_algo.h), cxx2c rules. Exceptions are outside the model (throw -> ghost flag).'},
 })
+CHECKS.update({
+ 'C11': {
+  'text': 'strtol/strtoul/strtoll/strtoull/strtoimax/strtoumax are proved per base (quick: 0, 2, 8, 10, 16, 36; thorough: all of 0, 2..36) for texts of unbounded length: both loops carry injected '
+          'invariants and the digit loop is co-simulated with an ISO 7.22.1.4 reference automaton that reads the text itself and keeps the mathematical value in 128 bits with a saturation flag - '
+          'value incl. sign, 0x/0 prefixes and clamping, *endptr at the first unconsumed character (the start when no digits), no read past it (exact-size text object). atoi/atol likewise under '
+          '"value representable". bsearch: memory safety for every nmemb (incl. 0) and the element sizes of the case split with an arbitrary comparator (loop invariant + decreases); qsort\'s swap '
+          'for any size. Result correctness of bsearch (nmemb <= 8) and of qsort (nmemb <= 4, 6 thorough; every pivot choice) are BOUNDED stand-ins.',
+  'ref': 'C11', 'technique': 'CBMC loop contracts with ghost co-simulation of an ISO strto* automaton (case split per base); loop-invariant memory-safety proof of bsearch; bounded runs for qsort',
+  'note': 'qsort recursion is cut by an induction stub on strictly smaller arrays (meta-argument). Sortedness + permutation for unbounded nmemb needs multiset reasoning over a function-pointer '
+          'comparator and is outside CBMC contracts: bounded. errno of strtol/strtoimax is not checked. Host limits/stdlib headers, shim ctype.'},
+})
 WIP = 'no proof unit built yet in this session (work in progress; see DESIGN.md for the planned contracts)'
 NOT_APPLICABLE = {
- 'C11': WIP,
+ 
  'C15': WIP, 'C19': WIP,
  'C09': 'quantifies over a family of C++ types assembled by template metaprogramming (partial specialisations, SFINAE, '
         'concepts, std::tuple/map/string, virtual archives); CBMC has no usable C++ front end and the mechanical C '
